@@ -342,6 +342,17 @@ func (env *SpecEnv) equal(l, r Value, n ast.Expr) *Term {
 		if b, ok := r.(*PtrVal); ok && b.null {
 			return mkBool(a.reg == nil)
 		}
+		if b, ok := r.(*SliceVal); ok {
+			if a.reg == nil || b.reg == nil {
+				return mkBool(a.reg == b.reg)
+			}
+			ar, ap, ao := env.e.resolveWindow(a.reg, a.path)
+			br, bp, bo := env.e.resolveWindow(b.reg, b.path)
+			if ar != br || fmt.Sprint(ap) != fmt.Sprint(bp) {
+				return tFalse
+			}
+			return mkAnd(mkEq(mkAdd(a.off, mkInt64(ao)), mkAdd(b.off, mkInt64(bo))), mkEq(a.length, b.length))
+		}
 	case *AggVal:
 		if b, ok := r.(*AggVal); ok {
 			return env.e.valuesEqual(env.state(), a, b)
@@ -525,7 +536,11 @@ func (env *SpecEnv) call(n *ast.CallExpr) Value {
 		return v
 	case "implies":
 		need(2)
-		return mkImplies(env.boolTerm(args[0]), env.boolTerm(args[1]))
+		g := env.boolTerm(args[0])
+		if (g.IsConst() && g.Val.Sign() == 0) || env.state().hypKeys[mkNot(g).Key()] {
+			return tTrue
+		}
+		return mkImplies(g, env.boolTerm(args[1]))
 	case "iff":
 		need(2)
 		return mkIff(env.boolTerm(args[0]), env.boolTerm(args[1]))
